@@ -1,5 +1,6 @@
 import LenaModel.Lemmas.C13Pass
 import LenaModel.Lemmas.C13WF
+import LenaModel.Lemmas.C13Frame
 /-! # C13 — static context seen by an element depends only on what encloses and precedes it
 
 Property (properties.jsonl): *The static context an element receives at initialisation is the fold, in
@@ -550,11 +551,12 @@ theorem run_values_independent (n : Nat) (ok : OutKeys) (src : List Item) : ∀ 
     st.linear = true → run n ok src st (f1 ++ f2) = appendOpt (run n ok src st f1) (run n ok src st f2)
   | .set .., f1, f2, _ => by simp [run, appendOpt]
   | .store _, f1, f2, _ => by simp [run, appendOpt]
-  | .ucfs c, f1, f2, _ => by simp [run, appendOpt]
+  | .ucfs c, f1, f2, _ => by
+    simp only [run, mapM_append_opt]
+    cases List.mapM (ucfsItem c) f1 <;> cases List.mapM (ucfsItem c) f2 <;> simp [appendOpt]
   | .mkf t c, f1, f2, _ => by
     simp only [run, mapM_append_opt]
-    cases List.mapM (fun it => (mkfCall n ok t c it.2).map fun x => (it.1, x)) f1 <;>
-      cases List.mapM (fun it => (mkfCall n ok t c it.2).map fun x => (it.1, x)) f2 <;> simp [appendOpt]
+    cases List.mapM (mkfItem n ok t c) f1 <;> cases List.mapM (mkfItem n ok t c) f2 <;> simp [appendOpt]
   | .write .., f1, f2, _ => by simp [run, appendOpt]
   | .cache .., f1, f2, _ => by simp [run, appendOpt]
   | .data, f1, f2, _ => by simp [run, appendOpt]
@@ -584,6 +586,284 @@ theorem runL_values_independent (n : Nat) (ok : OutKeys) (src : List Item) : ∀
         simp only [appendOpt]
         exact runL_values_independent n ok src ss a b h.2
 end
+
+/-! ## what `MakeFilename` may write, and what `run` may read -/
+
+/-- **frame of `MakeFilename.__call__`** (the only element besides `UpdateContextFromStatic` whose `run` looks at
+static context): whatever static context it holds and whatever its arguments are, in the run-time context of a
+value it changes nothing but `context["output"]`, and below `output` nothing but the keys prefix, suffix,
+filename, dirname, fileext — static context cannot reach any other run-time key through it -/
+theorem mkfCall_frame (n : Nat) (ok : OutKeys) (m : Mkf) (static : Option Ctx) (ctx r : Ctx)
+    (h : mkfCall n ok m static ctx = some r) :
+    (∀ i, i ≠ ok.output → getSlot r i = getSlot ctx i) ∧
+    (∀ j, ¬ ok.isOutputKey j → getSlot (outputOf ok r) j = getSlot (outputOf ok ctx) j) :=
+  ⟨mkfSteps_frame n ok m.overwrite static m.methods ctx r h,
+   mkfSteps_frame_output n ok m.overwrite static m.methods ctx r h⟩
+
+mutual
+/-- **`run` reads nothing of the static state but what `UpdateContextFromStatic` and `MakeFilename` hold**: the
+flow is the same after every other stored context, exported context, error and derived name is erased
+(by inspection of the transcribed `run`; a reading aid for `no_leak`) -/
+theorem run_reads_only_consumers (n : Nat) (ok : OutKeys) (src : List Item) : ∀ (st : St) (f : List Item),
+    run n ok src st f = run n ok src st.strip f
+  | .set .., f => by simp [run, St.strip]
+  | .store _, f => by simp [run, St.strip]
+  | .ucfs _, f => by simp [run, St.strip]
+  | .mkf .., f => by simp [run, St.strip]
+  | .write .., f => by simp [run, St.strip]
+  | .cache .., f => by simp [run, St.strip]
+  | .data, f => by simp [run, St.strip]
+  | .mut .., f => by simp [run, St.strip]
+  | .src, f => by simp [run, St.strip]
+  | .seq kind cs sc, f => by simp only [run, St.strip]; exact runL_reads_only_consumers n ok src cs f
+  | .split bs, f => by
+    simp only [run, St.strip]
+    cases bs with
+    | nil => simp [stripL]
+    | cons b bs => simp only [stripL, List.isEmpty_cons]; exact runB_reads_only_consumers n ok src (b :: bs) f
+theorem runL_reads_only_consumers (n : Nat) (ok : OutKeys) (src : List Item) : ∀ (ss : List St) (f : List Item),
+    runL n ok src ss f = runL n ok src (stripL ss) f
+  | [], f => by simp [runL, stripL]
+  | s :: ss, f => by
+    simp only [runL, stripL, ← run_reads_only_consumers n ok src s f]
+    cases run n ok src s f with
+    | none => rfl
+    | some f' => exact runL_reads_only_consumers n ok src ss f'
+theorem runB_reads_only_consumers (n : Nat) (ok : OutKeys) (src : List Item) : ∀ (bs : List St) (f : List Item),
+    runB n ok src bs f = runB n ok src (stripL bs) f
+  | [], f => by simp [runB, stripL]
+  | b :: bs, f => by
+    simp only [runB, stripL, ← run_reads_only_consumers n ok src b f, ← runB_reads_only_consumers n ok src bs f]
+end
+
+/-! ## the key that is named -/
+
+/-- **which key a failing lookup names** (`get_recursively`), against an independent description: the path splits
+as `pre ++ k :: post`, the keys `pre` lead through nested dictionaries to a dictionary `d`, and in `d` the key `k`
+is absent — or it is bound to a scalar while more keys follow -/
+theorem getRec_error_spec : ∀ (p : List Nat) (c : Ctx) (k : Nat), getRec c p = .error k →
+    ∃ pre post d, p = pre ++ k :: post ∧ descend c pre = some d ∧
+      (getSlot d k = none ∨ (post ≠ [] ∧ ∃ l, getSlot d k = some (.leaf l)))
+  | [], c, k, h => by simp [getRec] at h
+  | [k0], c, k, h => by
+    simp only [getRec] at h
+    cases hs : getSlot c k0 with
+    | none =>
+      simp only [hs, Except.error.injEq] at h; subst h
+      exact ⟨[], [], c, rfl, rfl, Or.inl hs⟩
+    | some v => simp [hs] at h
+  | k0 :: k1 :: ks, c, k, h => by
+    simp only [getRec] at h
+    cases hs : getSlot c k0 with
+    | none =>
+      simp only [hs, Except.error.injEq] at h; subst h
+      exact ⟨[], k1 :: ks, c, rfl, rfl, Or.inl hs⟩
+    | some v =>
+      cases v with
+      | leaf l =>
+        simp only [hs, Except.error.injEq] at h; subst h
+        exact ⟨[], k1 :: ks, c, rfl, rfl, Or.inr ⟨by simp, l, hs⟩⟩
+      | dict d =>
+        simp only [hs] at h
+        obtain ⟨pre, post, d', hp, hd, hk⟩ := getRec_error_spec (k1 :: ks) d k h
+        exact ⟨k0 :: pre, post, d', by simp [hp], by simp [descend, hs, hd], hk⟩
+
+/-- a formatting string fails on the first of its fields that cannot be looked up, and names that field's key -/
+theorem fmt_error_origin (t : Tpl) (x : Ctx) (k : Nat) (h : fmt t x = .error k) :
+    ∃ pre fld post, t.parts = pre ++ fld :: post ∧ getRec x fld.1 = .error k ∧
+      ∀ f ∈ pre, ∃ v, getRec x f.1 = .ok v := by
+  have aux : ∀ (ps : List (List Nat × String)), lookups x ps = .error k →
+      ∃ pre fld post, ps = pre ++ fld :: post ∧ getRec x fld.1 = .error k ∧ ∀ f ∈ pre, ∃ v, getRec x f.1 = .ok v := by
+    intro ps
+    induction ps with
+    | nil => intro h; simp [lookups] at h
+    | cons a ps ih =>
+      intro h
+      obtain ⟨p, lit⟩ := a
+      simp only [lookups] at h
+      cases hg : getRec x p with
+      | error e =>
+        simp only [hg, Except.error.injEq] at h; subst h
+        exact ⟨[], (p, lit), ps, rfl, hg, by simp⟩
+      | ok v =>
+        simp only [hg] at h
+        cases hl : lookups x ps with
+        | ok vs => simp [hl] at h
+        | error e =>
+          simp only [hl, Except.error.injEq] at h; subst h
+          obtain ⟨pre, fld, post, hp, hf, hpre⟩ := ih hl
+          refine ⟨(p, lit) :: pre, fld, post, by simp [hp], hf, ?_⟩
+          intro f hfm
+          simp only [List.mem_cons] at hfm
+          rcases hfm with hfm | hfm
+          · subst hfm; exact ⟨v, hg⟩
+          · exact hpre f hfm
+  unfold fmt at h
+  cases hl : lookups x t.parts with
+  | error e =>
+    simp only [hl, Except.error.injEq] at h; subst h
+    exact aux t.parts hl
+  | ok vs =>
+    simp only [hl] at h
+    split at h <;> cases h
+
+mutual
+/-- **the `LenaKeyError` of a program comes from a `SetContext` whose formatting string cannot be resolved
+against the fold of what encloses and precedes it**: there is a position `p` with a `SetContext(key, tpl)`, the
+top-down fold delivers a context `x` to it (so everything before it resolves), and formatting `tpl` against `x`
+fails naming exactly that key -/
+theorem fold_error_origin (n : Nat) : ∀ (t : Tree) (c : Ctx) (k : Nat), fold n t c = .error k →
+    ∃ p key ks tpl x, t.at? p = some (.leaf (.set key ks (.tpl tpl))) ∧ ctxAt n t p c = some x ∧ fmt tpl x = .error k
+  | .leaf (.set key ks (.tpl tpl)), c, k, h => by
+    simp only [fold, foldElem, fmtUpdate] at h
+    cases hf : fmt tpl c with
+    | ok l => simp [hf] at h
+    | error e =>
+      simp only [hf, Except.error.injEq] at h; subst h
+      exact ⟨[], key, ks, tpl, c, rfl, rfl, hf⟩
+  | .leaf (.set key ks (.const l)), c, k, h => by simp [fold, foldElem, fmtUpdate] at h
+  | .leaf .store, c, k, h => by simp [fold, foldElem] at h
+  | .leaf .ucfs, c, k, h => by simp [fold, foldElem] at h
+  | .leaf (.mkf _), c, k, h => by simp [fold, foldElem] at h
+  | .leaf (.write _), c, k, h => by simp [fold, foldElem] at h
+  | .leaf (.cache _), c, k, h => by simp [fold, foldElem] at h
+  | .leaf .data, c, k, h => by simp [fold, foldElem] at h
+  | .leaf (.mut ..), c, k, h => by simp [fold, foldElem] at h
+  | .leaf .src, c, k, h => by simp [fold, foldElem] at h
+  | .seq kind cs, c, k, h => by
+    simp only [fold] at h
+    obtain ⟨i, t', c', ht', hpre, p, key, ks, tpl, x, h1, h2, h3⟩ := foldL_error_origin n cs c k h
+    refine ⟨i :: p, key, ks, tpl, x, ?_, ?_, h3⟩
+    · simp [Tree.at?, Tree.children, ht', h1]
+    · simp [ctxAt, ht', hpre, h2]
+  | .split bs, c, k, h => by
+    simp only [fold] at h
+    cases hb : foldB n bs c with
+    | ok xs => simp [hb] at h
+    | error e =>
+      simp only [hb, Except.error.injEq] at h; subst h
+      obtain ⟨i, b, hb', p, key, ks, tpl, x, h1, h2, h3⟩ := foldB_error_origin n bs c e hb
+      refine ⟨i :: p, key, ks, tpl, x, ?_, ?_, h3⟩
+      · simp [Tree.at?, Tree.children, hb', h1]
+      · simp [ctxAt, hb', h2]
+theorem foldL_error_origin (n : Nat) : ∀ (ts : List Tree) (c : Ctx) (k : Nat), foldL n ts c = .error k →
+    ∃ (i : Nat) (t' : Tree) (c' : Ctx), ts[i]? = some t' ∧ foldL n (ts.take i) c = .ok c' ∧
+      ∃ p key ks tpl x, t'.at? p = some (.leaf (.set key ks (.tpl tpl))) ∧ ctxAt n t' p c' = some x ∧
+        fmt tpl x = .error k
+  | [], c, k, h => by simp [foldL] at h
+  | t :: ts, c, k, h => by
+    simp only [foldL] at h
+    cases ht : fold n t c with
+    | error e =>
+      simp only [ht, Except.error.injEq] at h; subst h
+      exact ⟨0, t, c, rfl, by simp [foldL], fold_error_origin n t c e ht⟩
+    | ok c1 =>
+      simp only [ht] at h
+      obtain ⟨i, t', c', ht', hpre, rest⟩ := foldL_error_origin n ts c1 k h
+      exact ⟨i + 1, t', c', by simpa using ht', by simp [foldL, ht, hpre], rest⟩
+theorem foldB_error_origin (n : Nat) : ∀ (bs : List Tree) (c : Ctx) (k : Nat), foldB n bs c = .error k →
+    ∃ (i : Nat) (b : Tree), bs[i]? = some b ∧
+      ∃ p key ks tpl x, b.at? p = some (.leaf (.set key ks (.tpl tpl))) ∧ ctxAt n b p c = some x ∧
+        fmt tpl x = .error k
+  | [], c, k, h => by simp [foldB] at h
+  | b :: bs, c, k, h => by
+    simp only [foldB] at h
+    by_cases hg : b.hasGet = true
+    · simp only [hg, if_true] at h
+      cases hb : fold n b c with
+      | error e =>
+        simp only [hb, Except.error.injEq] at h; subst h
+        exact ⟨0, b, rfl, fold_error_origin n b c e hb⟩
+      | ok x =>
+        simp only [hb] at h
+        cases hr : foldB n bs c with
+        | ok xs => simp [hr] at h
+        | error e =>
+          simp only [hr, Except.error.injEq] at h; subst h
+          obtain ⟨i, b', hb', rest⟩ := foldB_error_origin n bs c e hr
+          exact ⟨i + 1, b', by simpa using hb', rest⟩
+    · simp only [hg] at h
+      obtain ⟨i, b', hb', rest⟩ := foldB_error_origin n bs c k h
+      exact ⟨i + 1, b', by simpa using hb', rest⟩
+end
+
+/-- **an unresolved key surfaces, naming the key** (full form): if `_get_context()` of the constructed program
+raises `LenaKeyError(k)`, then some `SetContext` in it has a formatting field whose path, followed through the
+fold of what encloses and precedes that `SetContext`, breaks at key `k` -/
+theorem surfaced_key_is_missing (n : Nat) (t : Tree) (k : Nat) (hg : t.hasGet = true)
+    (h : getCtx n (build n t) = .error k) :
+    ∃ p key ks tpl x pre fld post, t.at? p = some (.leaf (.set key ks (.tpl tpl))) ∧
+      ctxAt n t p (Val.empty n) = some x ∧ tpl.parts = pre ++ fld :: post ∧ getRec x fld.1 = .error k ∧
+      ∃ kpre kpost d, fld.1 = kpre ++ k :: kpost ∧ descend x kpre = some d ∧
+        (getSlot d k = none ∨ (kpost ≠ [] ∧ ∃ l, getSlot d k = some (.leaf l))) := by
+  rw [get_context_is_fold n t hg] at h
+  obtain ⟨p, key, ks, tpl, x, h1, h2, h3⟩ := fold_error_origin n t _ k h
+  obtain ⟨pre, fld, post, hp, hf, _⟩ := fmt_error_origin tpl x k h3
+  obtain ⟨kpre, kpost, d, hk1, hk2, hk3⟩ := getRec_error_spec fld.1 x k hf
+  exact ⟨p, key, ks, tpl, x, pre, fld, post, h1, h2, hp, hf, kpre, kpost, d, hk1, hk2, hk3⟩
+
+/-! ## independent copies (token level) -/
+
+/-- a token handed inside a sub-program is the one the sub-program was handed, or was made inside it -/
+theorem tokAt_origin : ∀ (p : List Nat) (t : Tree) (abs : List Nat) (inc tok : Tok),
+    tokAt t abs inc p = some tok → tok = inc ∨ (abs <+: tok.1 ∧ abs.length < tok.1.length)
+  | [], t, abs, inc, tok, h => by simp only [tokAt, Option.some.injEq] at h; exact Or.inl h.symm
+  | i :: p, .leaf e, abs, inc, tok, h => by simp [tokAt] at h
+  | i :: p, .seq kind cs, abs, inc, tok, h => by
+    simp only [tokAt] at h
+    cases hc : cs[i]? with
+    | none => simp [hc] at h
+    | some c =>
+      simp only [hc, Option.bind_some] at h
+      rcases tokAt_origin p c (abs ++ [i]) _ tok h with h1 | ⟨h1, h2⟩
+      · cases hl : lastGet (cs.take i) with
+        | none => simp only [hl] at h1; exact Or.inl h1
+        | some j =>
+          simp only [hl] at h1
+          right; subst h1
+          exact ⟨by simp, by simp⟩
+      · right
+        exact ⟨List.IsPrefix.trans (List.prefix_append abs [i]) h1, by simp at h2; omega⟩
+  | i :: p, .split bs, abs, inc, tok, h => by
+    simp only [tokAt] at h
+    cases hc : bs[i]? with
+    | none => simp [hc] at h
+    | some b =>
+      simp only [hc, Option.bind_some] at h
+      right
+      rcases tokAt_origin p b (abs ++ [i]) _ tok h with h1 | ⟨h1, h2⟩
+      · subst h1; exact ⟨by simp, by simp⟩
+      · exact ⟨List.IsPrefix.trans (List.prefix_append abs [i]) h1, by simp at h2; omega⟩
+
+/-- **a Split hands each branch an independent copy** (token level): no element below one branch of a `Split` is
+handed the same dictionary object as an element below another branch — whatever the branches contain -/
+theorem split_branches_independent (bs : List Tree) (abs : List Nat) (inc : Tok) (i j : Nat) (p q : List Nat)
+    (ti tj : Tok) (hij : i ≠ j) (hi : tokAt (.split bs) abs inc (i :: p) = some ti)
+    (hj : tokAt (.split bs) abs inc (j :: q) = some tj) : ti ≠ tj := by
+  simp only [tokAt] at hi hj
+  cases hbi : bs[i]? with
+  | none => simp [hbi] at hi
+  | some bi =>
+    cases hbj : bs[j]? with
+    | none => simp [hbj] at hj
+    | some bj =>
+      simp only [hbi, hbj, Option.bind_some] at hi hj
+      have pi : (abs ++ [i]) <+: ti.1 := by
+        rcases tokAt_origin p bi _ _ ti hi with h | ⟨h, _⟩
+        · subst h; exact List.prefix_refl _
+        · exact h
+      have pj : (abs ++ [j]) <+: tj.1 := by
+        rcases tokAt_origin q bj _ _ tj hj with h | ⟨h, _⟩
+        · subst h; exact List.prefix_refl _
+        · exact h
+      intro heq
+      subst heq
+      obtain ⟨r1, hr1⟩ := pi
+      obtain ⟨r2, hr2⟩ := pj
+      have : abs ++ [i] ++ r1 = abs ++ [j] ++ r2 := hr1.trans hr2.symm
+      simp only [List.append_assoc, List.append_cancel_left_eq, List.cons_append, List.nil_append,
+        List.cons.injEq] at this
+      exact hij this.1
 
 /-- **why skipping is sound** (the optimisation `if hasattr(el, "_set_context") and context:` of
 `LenaSequence._set_context`): if the context after some elements is empty when they are started from a
@@ -685,7 +965,7 @@ example : getCtx 2 (build 2 ex2) = .error 1 := rfl
 example : ∃ x, fold 2 ex1 (Val.empty 2) = .ok x := ⟨_, rfl⟩
 example : (Tree.seq .sequence [.leaf (.set 0 [] (.const (.int 1))), .leaf .store, .leaf .data]).noConsumer = true := rfl
 example : run 2 ⟨0, 1, 0, 1, 0, 1⟩ [] (build 2 (.seq .sequence [.leaf (.set 1 [] (.const (.int 1))), .leaf .ucfs]))
-    [(5, [none, none])] = some [(5, [none, some (.leaf (.int 1))])] := rfl
+    [(5, some [none, none])] = some [(5, some [none, some (Val.leaf (Leaf.int 1))])] := rfl
 -- hypothesis of `run_values_independent`: a state with a consumer and a run-time mutator is linear
 example : (build 2 (.seq .sequence [.leaf (.set 1 [] (.const (.int 1))), .leaf .ucfs, .leaf (.mut 0 [] (.int 5))])).linear = true := rfl
 -- hypothesis of `split_transparent_branch`: a bare element branch; of `redelivery_idempotent`: a history below `c`
